@@ -139,7 +139,7 @@ P("C08", level_text="Theorem: for every raw-free document within the 64-bit/32-b
   "doubles only when lossless), with the shortest headers on both sides of every boundary. bin/ext values built through the API are modelled and compared; destinations, counts and "
   "bounded buffers are checked in the harness; an independent Python decoder judges the implementation's bytes.",
   level_note="raw values are excluded from the theorem (they are copied verbatim); lengths >= 2^32 are outside the format",
-  suites=lambda tier: [S.MpSerSuite(cfg=DEF), S.SerBufSweep(cfg=DEF, fmt="mp", n=40 if tier == "quick" else 1500)] +
+  suites=lambda tier: [S.MpSerSuite(cfg=DEF), S.SerBufSweep(cfg=DEF, fmt="mp", n=40 if tier == "quick" else 1500), S.MpSerSuite(cfg=G["len1"], n=300 if tier == "quick" else 20000)] +
   ([S.MpSerSuite(cfg=G["len4"], n=2000)] if tier == "thorough" else []))
 
 P("C09", module="AJ.Props.C09All", extra=[("AJ.Props.C09", ["C09"]), ("AJ.Props.C09Prefix", ["C09"])],
@@ -151,7 +151,8 @@ P("C09", module="AJ.Props.C09All", extra=[("AJ.Props.C09", ["C09"]), ("AJ.Props.
   "it consumed. The model agrees with deserializeMsgPack on values encoded by an independent encoder with arbitrary legal widths, on all their proper prefixes and on corruptions; the "
   "implementation's document is checked against the encoded value.",
   level_note="the value denoted by a non-minimal encoding (as opposed to its acceptance and prefix behaviour) is tied by the correspondence and the independent codec; USE_DOUBLE=0 is modelled as rounding every stored double to binary32",
-  suites=lambda tier: [S.MpDeSuite(cfg=DEF), S.MpDeSuite(cfg={"USE_DOUBLE": 0}, n=1200 if tier == "quick" else 60000)],
+  suites=lambda tier: [S.MpDeSuite(cfg=DEF), S.MpDeSuite(cfg={"USE_DOUBLE": 0}, n=1200 if tier == "quick" else 60000),
+                       S.MpDeSuite(cfg={"USE_LONG_LONG": 0}, n=800 if tier == "quick" else 40000)],
   partial=["value of non-minimal encodings as a theorem"])
 
 P("C10", module="AJ.Props.C10All", extra=[("AJ.Props.C10", ["C10"]), ("AJ.Props.C10Class", ["C10"])], level_text="Theorems C10.accepts_iff / ok_iff_dialect: for every configuration (comments, NaN, Infinity, unicode decoding on or off), nesting limit and byte string, the deserializer model "
@@ -178,7 +179,7 @@ P("C11", module="AJ.Props.C11All", extra=[("AJ.Props.C11", ["C11"]), ("AJ.Props.
   "is never produced into an absent destination. Pairs (input, filter) are "
   "run through the real library, compared with the model and with the projection of the unfiltered result computed independently; memory requested by both runs is compared.",
   level_note="the memory clause is checked on the implementation only (three measures from the allocator ledger); two known findings about it",
-  suites=lambda tier: [S.FilterSuite(cfg=DEF)],
+  suites=lambda tier: [S.FilterSuite(cfg=DEF), S.FilterSuite(cfg=CFG_ALL, n=2500 if tier == "quick" else 100000)],
   partial=["memory clause"])
 
 P("C12", module="AJ.Props.C12All", extra=[("AJ.Props.C12", ["C12"]), ("AJ.Props.C12Print", ["C12"])],
